@@ -7,7 +7,7 @@ use crate::assembly::{Instr, Label, Line, LineVariant, Reg, remove_labels_and_co
 use crate::ast::ForeignCallPolicy;
 use crate::ast::{
     ArgMaybeAnnotated, AssignOperator, AstNode, BinaryOperator, FuncDecl, FuncDef, Identifier,
-    InterfaceDef, ItemKind, PatStructFields, PatVariantData,
+    InterfaceDef, ItemKind, PatStructFields, PatVariantData, TypeKind,
 };
 use crate::ast::{FileAst, NodeId};
 use crate::environment::Environment;
@@ -1548,12 +1548,18 @@ impl Translator {
         }
     }
 
-    fn wrapper_footer(&self, st: &mut TranslatorState, nargs: usize, for_function_body: bool) {
+    fn wrapper_footer(
+        &self,
+        st: &mut TranslatorState,
+        nargs: usize,
+        returns_value: bool,
+        for_function_body: bool,
+    ) {
         if for_function_body {
-            if nargs == 0 {
-                self.emit(st, Instr::ReturnVoid);
-            } else {
+            if returns_value {
                 self.emit(st, Instr::Return(nargs as u32));
+            } else {
+                self.emit(st, Instr::ReturnVoid);
             }
         }
     }
@@ -1866,7 +1872,7 @@ impl Translator {
                 self.emit(st, Instr::Panic);
             }
         }
-        self.wrapper_footer(st, nargs, for_function_body);
+        self.wrapper_footer(st, nargs, nargs != 0, for_function_body);
     }
 
     fn emit_foreign(
@@ -1900,7 +1906,8 @@ impl Translator {
         let func_id = offset + self.statics.dylib_to_funcs[&lib_id].get_id(symbol) as usize;
         self.emit(st, Instr::CallForeign(func_id as u32));
 
-        self.wrapper_footer(st, nargs, for_function_body);
+        let returns_value = !matches!(&*func_decl.ret_type.kind, TypeKind::Void);
+        self.wrapper_footer(st, nargs, returns_value, for_function_body);
     }
 
     fn emit_host(
@@ -1916,7 +1923,8 @@ impl Translator {
         let idx = self.statics.host_funcs.get_id(func_decl) as u16;
         self.emit(st, Instr::HostFunc(idx));
 
-        self.wrapper_footer(st, nargs, for_function_body);
+        let returns_value = !matches!(&*func_decl.ret_type.kind, TypeKind::Void);
+        self.wrapper_footer(st, nargs, returns_value, for_function_body);
     }
 
     // emit items for checking if a pattern matches the TOS, replacing it with a boolean
@@ -2825,7 +2833,8 @@ impl Translator {
                     self.collect_locals_stmt(statement, locals, mono);
                 }
             }
-            ExprKind::Match(_, arms) => {
+            ExprKind::Match(scrutinee, arms) => {
+                self.collect_locals_expr(scrutinee, locals, mono);
                 for arm in arms {
                     self.collect_locals_pat(&arm.pat, locals, mono);
                     self.collect_locals_stmt(&arm.stmt, locals, mono);
@@ -3055,7 +3064,8 @@ impl Translator {
                     self.collect_captures_stmt(statement, captures, mono);
                 }
             }
-            ExprKind::Match(_, arms) => {
+            ExprKind::Match(scrutinee, arms) => {
+                self.collect_captures_expr(scrutinee, captures, mono);
                 for arm in arms {
                     self.collect_captures_stmt(&arm.stmt, captures, mono);
                 }
